@@ -98,6 +98,10 @@ structure Server where
   while the server is running; Bevy keeps removal events for two frames) -/
   pendingRemOld : List (Nat × Nat) := []
   clients : List (Nat × Cli) := []
+  /-- `Time::elapsed` in ms and the repeating timer of `cleanup_acks.run_if(on_timer(timeout))` -/
+  elapsed : Nat := 0
+  timerAcc : Nat := 0
+  timeout : Nat := 400
 deriving Repr, Inhabited
 
 /-! ### small association-list helpers -/
@@ -330,7 +334,13 @@ namespace Replicon.Srv
 /-- First half of a server frame (`App::update`): `receive_acks`, the tick (if any),
 `buffer_removals`, and — when `ServerTick` changed — `send_replication` up to the point where
 `Mutations::send` splits the collected mutations.  Returns what every authorized client is sent. -/
-def Server.frameBegin (s : Server) (ticked : Bool) : Server × Bool × List (Nat × ClientOut) :=
+def Server.frameBegin (s : Server) (ticked : Bool) (ms : Nat := 10) : Server × Bool × List (Nat × ClientOut) :=
+  -- time advances (`Time<Virtual>` clamps a frame's delta to its `max_delta` of 250 ms); the
+  -- `on_timer` condition ticks its timer in every frame
+  let ms := min ms 250
+  let acc := s.timerAcc + ms
+  let fired := decide (acc ≥ s.timeout) && decide (s.timeout > 0)
+  let s := { s with elapsed := s.elapsed + ms, timerAcc := if fired then acc % s.timeout else acc }
   if !s.running then
     -- the run condition `resource_changed::<ServerTick>` is evaluated (and the change consumed)
     -- in every frame; then, once, the `reset` of a just stopped server
@@ -344,6 +354,7 @@ def Server.frameBegin (s : Server) (ticked : Bool) : Server × Bool × List (Nat
   else
     let s := { s with lastRunning := true }
     let s := { s with clients := s.clients.map fun (c, cl) => (c, Cli.processAcks cl) }
+    let s := if fired then s.cleanupAcks (s.elapsed - s.timeout) else s
     let s := if ticked then { s with tick := s.tick + 1, tickChanged := true } else s
     let s := s.bufferRemovals
     if !s.tickChanged then (s, false, [])
@@ -359,7 +370,8 @@ def Server.frameBegin (s : Server) (ticked : Bool) : Server × Bool × List (Nat
 
 /-- Second half: `Mutations::send` registered `parts c` (entities per message) for client `c`;
 `visibility.update()`; the buffers are cleared; the change-detection clock advances. -/
-def Server.frameEnd (s : Server) (ran : Bool) (time : Nat) (parts : Nat → List (List Nat)) : Server :=
+def Server.frameEnd (s : Server) (ran : Bool) (parts : Nat → List (List Nat)) : Server :=
+  let time := s.elapsed
   if !ran then { s with now := s.now + 2 }
   else
     let thisRun := s.now + 1
